@@ -179,6 +179,13 @@ def r03_2(ctx, run, info):
                 ctx.check(both and not other and col_ok, "R03.2", run.where(d), "the path column (column 6) is split on both orientation characters and on nothing else", key_of(run, f"split:{pat}:{norm(c.args[1])}"), pattern=pat)
                 src = norm(d.value)
                 ok_slice = src.endswith("[1:]") and "filter" not in src
+                if not ok_slice and isinstance(d.value, ast.Call) and norm(d.value.func) in ("islice", "itertools.islice") and len(d.value.args) == 3 and const_value(d.value.args[1], None) == 1 and isinstance(d.value.args[2], ast.Constant) and d.value.args[2].value is None and "filter" not in src:
+                    # islice(x, 1, None) walks x[1:]; that the iterator is walked once is the store loop's rule above (a name)
+                    loads_ = sum(1 for x_ in ast.walk(loop) if isinstance(x_, ast.Name) and x_.id == lst and isinstance(x_.ctx, ast.Load))
+                    if loads_ == 1:
+                        ok_slice = True
+                    else:
+                        raise AnalysisError("R03.2", run.where(d), f"the node list `{lst}` is a lazy slice (`{src[:50]}`) read {loads_} times: whether a later reader still finds it full is not decided")
                 ctx.check(ok_slice, "R03.2", run.where(d), "only the leading empty element of the split is dropped ([1:])", key_of(run, f"split-slice:{src}"), expr=src)
     ctx.require_count("R03.2", n_split, 1, run.where(loop), "split of the path column for unstable records")
 
@@ -636,6 +643,21 @@ def r03_6(ctx, run, info):
         defs = [norm(st.value) for st in walk_own(run.node) if isinstance(st, ast.Assign) and norm(st.targets[0]) == h]
         if any(isinstance(st, ast.Assign) and norm(st.targets[0]) == h and isinstance(st.value, ast.Call) and isinstance(st.value.func, ast.Name) and st.value.func.id in {x.id for x in walk_own(run.node) if isinstance(x, ast.Name) and isinstance(x.ctx, ast.Store)} for st in walk_own(run.node)):
             raise AnalysisError("R03.6", run.where(), f"the handle is opened through a local callable ({defs}) this rule cannot resolve")
+        if not defs:
+            # bound by a `with helper(path) as h:` of a program context manager: the helper is read instead
+            for w_ in walk_own(run.node):
+                if isinstance(w_, ast.With):
+                    for it_ in w_.items:
+                        if it_.optional_vars is not None and norm(it_.optional_vars) == h and isinstance(it_.context_expr, ast.Call):
+                            cal = repo.resolve_call(run, it_.context_expr)
+                            if cal is not None and opener_shape(cal) and any(isinstance(y_, ast.Yield) and y_.value is not None and norm(y_.value) == norm(opener_shape(cal)[0][1].targets[0]) for y_ in walk_own(cal.node)):
+                                shapes = opener_shape(cal)[:1]
+                                run = cal
+                            else:
+                                raise AnalysisError("R03.6", run.where(w_), f"the indexed file is opened by the context manager `{norm(it_.context_expr)[:50]}`, which this rule cannot follow to the opener")
+        if not shapes and not defs:
+            raise AnalysisError("R03.6", run.where(), f"cannot find where the handle `{h}` whose tell() is stored is opened")
+    if not shapes:
         if any("BGZFile(" in d for d in defs) and any(d.startswith("open(") for d in defs):
             raise AnalysisError("R03.6", run.where(), f"the handle is opened as {defs} under a test this rule does not read as the compression sniff of the same path")
         ctx.violated("R03.6", run.where(), f"the handle whose tell() is stored is opened as {defs}, not with the sniff -> (BGZFile | open) pair the seeking reader uses", key_of(run, f"opener:{defs}"), opened=defs)
